@@ -2,7 +2,8 @@
 
 The TLA+ specification contributes (a) the corpus: TLC-enumerated valid encodings and their single-byte
 mutations (Gen_DBusMut), GVariant encodings of TLC-enumerated values (Gen_GVariant), nestings at the depth
-limits with reference encodings (Gen_Depths) and deep-signature families; (b) the outcome domain
+limits with reference encodings (Gen_Depths), deep-signature families and variants nested by data up to 200 000 deep;
+(b) the outcome domain
 (spec/trace/FuzzCheck.tla).  Crash / abort / allocation observation is harness code (DESIGN.md 1.2).
 """
 import json
@@ -27,6 +28,13 @@ def deep_sig_corpus(path):
                 out.append({"fmt": fmt, "sig": "v", "bytes": [0] * 8 + [0] + [ord(c) for c in sig], "pos": 0, "le": True, "nfds": 0})
     for sig in ("a" * 2000 + "y", "(" * 2000 + "y" + ")" * 2000, "v" * 300, "m" * 200 + "y"):
         out.append({"fmt": "dbus", "sig": sig, "bytes": [0] * 32, "pos": 0, "le": True, "nfds": 0})
+    # nesting by *data*: variants are the only container whose depth the (<= 255 byte) signature does not bound; N nested
+    # variants around one byte, far beyond any stack (DBusWire!Marshal / GVariantWire!GvMarshal of v(v(...v(y)...)), written
+    # out by formula because TLC cannot hold a 200 000-deep value): D-Bus = N x [1 'v' 0] + [1 'y' 0 7]; GVariant = [7 0 'y'] +
+    # N x [0 'v'] (child bytes, a zero byte, the child's signature)
+    for n in (65, 1000, 20000, 200000):
+        out.append({"fmt": "dbus", "sig": "v", "bytes": [1, 118, 0] * n + [1, 121, 0, 7], "pos": 0, "le": True, "nfds": 0})
+        out.append({"fmt": "gvariant", "sig": "v", "bytes": [7, 0, 121] + [0, 118] * n, "pos": 0, "le": True, "nfds": 0})
     with open(path, "w") as f:
         for o in out:
             f.write(json.dumps(o) + "\n")
